@@ -39,7 +39,7 @@ def run(ctx, rep):
     from ..rules import more5
     more5.rule_align_dir(mod, rep)
     from ..rules import more6
-    more6.rule_alloc_range(mod, rep, floor=100)
+    more6.rule_alloc_range(mod, rep, floor=70)
     more6.rule_lusup_static(mod, rep)
     more4.rule_workfreeall_order(mod, rep)      # the free-space test of the user work space (StackFull) is only as good as stack.used
     from ..rules import more6 as _m6b
